@@ -152,6 +152,8 @@ impl SymbolList {
                     // findest smallest symbol size to hold data with base256
                     s.capacity().min >= input_len
                 })
+                // no symbol is guaranteed to hold the data, the largest one is the limit
+                .or_else(|| self.symbols.iter().next_back())
                 .map(SymbolSize::num_data_codewords)
         }
     }
